@@ -74,10 +74,16 @@ where
                 }
                 State::Read(chunk_end) => {
                     if self.reader.virtual_position() < chunk_end {
-                        return self.reader.fill_buf();
-                    } else {
-                        self.state = State::Seek;
+                        self.reader.fill_buf()?;
+
+                        // Filling the buffer skips empty blocks: the reader may now be at (or
+                        // past) the end of the chunk although it was before it a moment ago.
+                        if self.reader.virtual_position() < chunk_end {
+                            return self.reader.fill_buf();
+                        }
                     }
+
+                    self.state = State::Seek;
                 }
                 State::Done => return Ok(&[]),
             }
